@@ -80,7 +80,7 @@ func c19Cases(tier string, seed uint64, flavor string) []lib.Case {
 	trees := []string{"nested", "tiny600", "mixed-big", "small"}
 	ntree := 1
 	if tier == "thorough" {
-		ntree = 8
+		ntree = 30
 	}
 	workers := []int{-1, 1, 2, 3, 4, 5, 6, 7, 8, 9, 10, 11, 12, 13, 14, 15, 16}
 	if flavor == "race" {
